@@ -409,7 +409,11 @@ impl<'a> TimeZoneRef<'a> {
         while i < self.leap_seconds.len() {
             let leap_second = &self.leap_seconds[i];
 
-            if unix_leap_time < leap_second.unix_leap_time {
+            // A negative leap second removes a second, so it only applies strictly after its Unix leap time
+            let previous_correction = if i > 0 { self.leap_seconds[i - 1].correction } else { 0 };
+            let is_negative = leap_second.correction < previous_correction;
+
+            if unix_leap_time < leap_second.unix_leap_time || (is_negative && unix_leap_time == leap_second.unix_leap_time) {
                 break;
             }
 
